@@ -4,6 +4,8 @@
 
 import re
 
+from rdkit import Chem
+
 from .atom import Atom
 from .bond import BondDescriptor
 from .core import _GLOBAL_RNG, BigSMILESbase, choose_compatible_weight
@@ -206,6 +208,24 @@ class SmilesToken(BigSMILESbase):
         self.elements = elements
         self.atoms = atoms
         self.bond_descriptors = bond_descriptors
+
+        # Hydrogens written out inside a fragment, like 'C([H])C', are merged into their heavy atom
+        # when the fragment molecule is built, so the atoms written after them move up.
+        # Bond descriptors have to point to the atom position in the fragment molecule.
+        if any(re.sub(r"[\[\]\d+-]", "", atom.generate_string(False)) == "H" for atom in atoms):
+            params = Chem.SmilesParserParams()
+            params.removeHs = False
+            written_mol = Chem.MolFromSmiles(self.generate_smiles_fragment(), params)
+            if written_mol is not None and written_mol.GetNumAtoms() == len(atoms):
+                for atom in written_mol.GetAtoms():
+                    atom.SetIntProp("written_idx", atom.GetIdx())
+                fragment_idx = {
+                    atom.GetIntProp("written_idx"): atom.GetIdx()
+                    for atom in Chem.RemoveHs(written_mol).GetAtoms()
+                }
+                for bond in bond_descriptors:
+                    if bond.atom_bonding_to in fragment_idx:
+                        bond.atom_bonding_to = fragment_idx[bond.atom_bonding_to]
 
     def generate_string(self, extension):
         string = ""
